@@ -22,6 +22,11 @@ CHECKS = {
    text="Same simulated store workload as C02 with the indexer as a scheduled task (yield between reading a bulk and inserting it, so snapshots are arbitrarily stale and flush/compaction/close land mid-bulk) and an indexing-option swarm (bulk size, flush/sync thresholds, node size, cache, buffered-data limits). Oracle after every cycle and reopen: Get, History (both directions, offset/limit), GetBetween and full scans (asc/desc, deleted/expired filtered) equal a key-value model rebuilt from the committed log.",
    note="Default index only so far (prefixed/mapped indexes are exercised through the SQL checks); expirations use the simulated clock.",
    technique="deterministic simulation: seeded schedules of writers/indexer/maintenance vs key-value model of the log"),
+ "C03": dict(
+   level="fault_enumeration", design="DESIGN.md §7 C03",
+   text="Record/enumerate: a synced store runs a concurrent workload under the scheduler while the shadow disk records every storage operation (write, fsync, directory sync, create, remove, rename) and an ack marker per returned commit; then crash images are materialised for sampled operation indexes k and persistence modes (process kill; power loss with none / prefix / random subset of un-synced writes, sector-torn writes, un-dirsynced files missing), the real store is opened on each image, a fraction of recoveries is crashed again. Oracle per image: open succeeds, frontier >= highest ack before k, every acknowledged tx byte-identical, chain and BlRoot against the reference Merkle tree, dual proofs from acknowledged states verify, index equals the model of the recovered log, a fresh commit succeeds and chains. The enumeration over k is sampled (10 images per trace in quick, 40 in thorough), not exhaustive.",
+   note="Trusts the shadow-disk model (see evidence assumptions). Values of transactions that were never acknowledged may be unreadable after recovery (counted by a probe), never different. Compressed value logs are excluded.",
+   technique="deterministic simulation: recorded storage-op trace, crash-point and lost-write enumeration, recovery oracle"),
 }
 
 NOT_APPLICABLE = [
